@@ -1,0 +1,168 @@
+//go:build verif
+
+// Package verifhook provides instrumentation points used by external runtime monitors.
+// It is only active when built with the "verif" build tag; see nohook.go for the inert version.
+package verifhook
+
+import (
+	"fmt"
+	"os"
+	"path"
+	"sort"
+	"strconv"
+	"strings"
+	"sync"
+	"sync/atomic"
+	"syscall"
+	"time"
+)
+
+// Enabled is true when hooks are compiled in.
+const Enabled = true
+
+var (
+	initOnce sync.Once
+
+	seq atomic.Int64
+
+	traceFile *os.File
+
+	delayOn   bool
+	delayProb float64
+	delayMax  int64 // microseconds
+	delayGlob string
+	rngState  atomic.Uint64
+
+	crashName string
+	crashN    int64
+	hits      atomic.Int64
+
+	faultName string
+	faultN    int64
+	faultHits atomic.Int64
+
+	countFile string
+	countMu   sync.Mutex
+	counts    map[string]int64
+	order     []string
+)
+
+func setup() {
+	if f := os.Getenv("VERIF_TRACE"); f != "" {
+		traceFile, _ = os.OpenFile(f, os.O_WRONLY|os.O_CREATE|os.O_APPEND, 0644)
+	}
+	// VERIF_HOOK_DELAY=seed:prob:maxmicros[:nameglob]
+	if d := os.Getenv("VERIF_HOOK_DELAY"); d != "" {
+		parts := strings.SplitN(d, ":", 4)
+		if len(parts) >= 3 {
+			seed, _ := strconv.ParseUint(parts[0], 10, 64)
+			delayProb, _ = strconv.ParseFloat(parts[1], 64)
+			delayMax, _ = strconv.ParseInt(parts[2], 10, 64)
+			if len(parts) == 4 {
+				delayGlob = parts[3]
+			}
+			rngState.Store(seed*0x9E3779B97F4A7C15 + 1)
+			delayOn = delayProb > 0
+		}
+	}
+	// VERIF_HOOK_CRASH=name#k (k-th hit of that name, glob allowed) or #N (N-th hit overall)
+	if c := os.Getenv("VERIF_HOOK_CRASH"); c != "" {
+		if i := strings.LastIndexByte(c, '#'); i >= 0 {
+			crashName = c[:i]
+			crashN, _ = strconv.ParseInt(c[i+1:], 10, 64)
+		}
+	}
+	if c := os.Getenv("VERIF_HOOK_FAULT"); c != "" {
+		if i := strings.LastIndexByte(c, '#'); i >= 0 {
+			faultName = c[:i]
+			faultN, _ = strconv.ParseInt(c[i+1:], 10, 64)
+		}
+	}
+	if f := os.Getenv("VERIF_HOOK_COUNT"); f != "" {
+		countFile = f
+		counts = map[string]int64{}
+	}
+}
+
+func next() uint64 {
+	// splitmix64
+	z := rngState.Add(0x9E3779B97F4A7C15)
+	z = (z ^ (z >> 30)) * 0xBF58476D1CE4E5B9
+	z = (z ^ (z >> 27)) * 0x94D049BB133111EB
+	return z ^ (z >> 31)
+}
+
+func match(glob, name string) bool {
+	if glob == "" || glob == name {
+		return true
+	}
+	ok, _ := path.Match(glob, name)
+	return ok
+}
+
+// Point marks a named place between two critical sections. Depending on the environment it may
+// delay, count, or kill the process.
+func Point(name string) {
+	initOnce.Do(setup)
+	if countFile != "" {
+		countMu.Lock()
+		if _, present := counts[name]; !present {
+			order = append(order, name)
+		}
+		counts[name]++
+		n := hits.Add(1)
+		// Rewrite on every hit so it survives any exit path; only used for small dry runs.
+		var sb strings.Builder
+		names := append([]string{}, order...)
+		sort.Strings(names)
+		fmt.Fprintf(&sb, "total %d\n", n)
+		for _, k := range names {
+			fmt.Fprintf(&sb, "%s %d\n", k, counts[k])
+		}
+		os.WriteFile(countFile, []byte(sb.String()), 0644)
+		countMu.Unlock()
+	}
+	if crashN > 0 && match(crashName, name) {
+		if hits2 := crashHits.Add(1); hits2 == crashN {
+			if traceFile != nil {
+				Event("crash", name, strconv.FormatInt(crashN, 10))
+			}
+			syscall.Kill(syscall.Getpid(), syscall.SIGKILL)
+			time.Sleep(time.Hour) // never proceed past the crash point
+		}
+	}
+	if delayOn && match(delayGlob, name) {
+		r := next()
+		if float64(r>>11)/float64(1<<53) < delayProb {
+			if delayMax <= 0 {
+				yield()
+			} else {
+				time.Sleep(time.Duration(next()%uint64(delayMax)+1) * time.Microsecond)
+			}
+		}
+	}
+}
+
+var crashHits atomic.Int64
+
+// Fault returns an injected error when configured to for the k-th call with this name.
+func Fault(name string) error {
+	initOnce.Do(setup)
+	if faultN > 0 && match(faultName, name) {
+		if faultHits.Add(1) == faultN {
+			return fmt.Errorf("verifhook: injected fault at %s#%d", name, faultN)
+		}
+	}
+	return nil
+}
+
+// Event records one event to the trace file named by $VERIF_TRACE.
+func Event(kind, subject, detail string) {
+	initOnce.Do(setup)
+	if traceFile == nil {
+		return
+	}
+	n := seq.Add(1)
+	line := fmt.Sprintf("{\"seq\":%d,\"g\":%d,\"kind\":%q,\"subject\":%q,\"detail\":%q}\n", n, goid(), kind, subject, detail)
+	traceFile.WriteString(line) // single write(2) on an O_APPEND fd
+}
